@@ -139,19 +139,20 @@ def applyInit : List Field → List Val → List Val
 mutual
 def hasTy (S : Schema) : Ty → Val → Bool
   | .base .string, .str _ => true
-  | .base .binary, .bin _ _ => true
+  | .base .binary, .bin n s => !n || s.isEmpty
   | .base .string, _ => false
   | .base .binary, _ => false
+  | .base .bool, .sc n => n < 2          -- a valid Go bool is 0 or 1
   | .base k, .sc n => n < 2 ^ k.bits
   | .base _, _ => false
   | .ptr _, .nilp => true
   | .ptr e, .ptr v => !e.isPtr && hasTy S e v
   | .ptr _, _ => false
-  | .list _ e, .lst _ xs => hasTyList S e xs
+  | .list _ e, .lst n xs => (!n || xs.isEmpty) && hasTyList S e xs
   | .list _ _, _ => false
-  | .map k v, .mp _ es => hasTyEntries S k v es
+  | .map k v, .mp n es => (!n || es.isEmpty) && hasTyEntries S k v es
   | .map _ _, _ => false
-  | .strct sid, .st fs _ => hasTyFields S (S.get sid).fields fs
+  | .strct sid, .st fs h => ((S.get sid).hasHolder || h.isEmpty) && hasTyFields S (S.get sid).fields fs
   | .strct _, _ => false
 def hasTyList (S : Schema) (e : Ty) : List Val → Bool
   | [] => true
@@ -164,6 +165,33 @@ def hasTyFields (S : Schema) : List Field → List Val → Bool
   | f :: fr, v :: vr => hasTy S f.ty v && hasTyFields S fr vr
   | _, _ => false
 end
+
+/-! ### types the annotation parser can produce (see `Tags.parseType_ok`) -/
+
+def Ty.isStructPtr : Ty → Bool
+  | .ptr (.strct _) => true
+  | _ => false
+
+/-- no pointer to pointer / to container; container elements and map values are values or
+    pointers to structs; map keys are scalars, strings or pointers to structs -/
+def Ty.ok : Ty → Bool
+  | .base _ => true
+  | .strct _ => true
+  | .ptr (.base _) => true
+  | .ptr (.strct _) => true
+  | .ptr _ => false
+  | .list _ e => e.ok && (!e.isPtr || e.isStructPtr)
+  | .map k v => k.ok && v.ok && (!v.isPtr || v.isStructPtr) &&
+      (match k with
+       | .base .binary => false
+       | .base _ => true
+       | .ptr (.strct _) => true
+       | _ => false)
+
+/-- resolver rule: only optional fields or structs can be pointers -/
+def Field.ok (f : Field) : Bool := f.ty.ok && (!f.ty.isPtr || f.ty.isStructPtr || f.req == .optional)
+def SDesc.ok (sd : SDesc) : Bool := sd.fields.all Field.ok
+def Schema.ok (S : Schema) : Bool := S.all SDesc.ok
 
 /-! ### regenerated constants and tables -/
 
